@@ -501,6 +501,10 @@ class Summ:
 
     # ---------------------------------------------------------------- reports
     def reports(self, body, obj=None, depth=0, _returned=False):
+        with S.raw_terms():
+            return self._reports(body, obj, depth, _returned)
+
+    def _reports(self, body, obj=None, depth=0, _returned=False):
         """[(reported term, formula, site)] for everything put into the set `obj` (default: the returned set)"""
         if depth > 6:
             raise Unanalysable("report nesting too deep")
